@@ -19,6 +19,11 @@ def builder(func: Callable[..., T_Retval]) -> Callable[..., T_Self | T_Retval]:
 
     def _copy(self: T_Self, *args, **kwargs) -> T_Self | T_Retval:
         self_copy = copy.copy(self) if getattr(self, "immutable", True) else self
+        if self_copy is not self:
+            # (looked up on the class: instances of Table and friends answer every attribute name with a column)
+            derived = getattr(type(self_copy), "_derived_by_builder_call", None)
+            if derived is not None:
+                derived(self_copy)
         result = func(self_copy, *args, **kwargs)
 
         # Return self if the inner function returns None.  This way the inner function can return something
